@@ -90,21 +90,66 @@ Proof.
   rewrite S, hint_of_at. exact F3.
 Qed.
 
-Lemma Test_append st x d : inv st -> step_ok st (OAppend x d).
+
+(* the two guards of [step]/[sstep] for an operation on an array handle *)
+Ltac arr_guards I st x Hx Hs :=
+  destruct (Nat.ltb_spec x (length (shnd st))) as [Hx|Hx];
+  [ | apply guard_ok;
+      [ exact I
+      | unfold step; cbn [target]; rewrite (proj2 (Nat.ltb_ge _ _) Hx); reflexivity
+      | intros ?h; unfold sstep; cbn [target]; rewrite abs_length, (proj2 (Nat.ltb_ge _ _) Hx); reflexivity ] ];
+  destruct (hsl (hnd st x)) eqn:Hs;
+  [ apply guard_ok;
+      [ exact I
+      | unfold step; cbn [target is_slice_op]; rewrite (proj2 (Nat.ltb_lt _ _) Hx), Hs; reflexivity
+      | intros ?h; unfold sstep; cbn [target is_slice_op];
+        rewrite abs_length, (proj2 (Nat.ltb_lt _ _) Hx), nth_abs; unfold absh; rewrite Hs; reflexivity ]
+  | ].
+
+Ltac arr_eq_step Hx Hs :=
+  unfold step; cbn [target is_slice_op]; rewrite (proj2 (Nat.ltb_lt _ _) Hx), Hs; reflexivity.
+Ltac arr_eq_spec Hx Hs :=
+  intros ?h; unfold sstep; cbn [target is_slice_op];
+  rewrite abs_length, (proj2 (Nat.ltb_lt _ _) Hx), nth_abs, (absh_arr _ _ Hs); reflexivity.
+
+Lemma step_append st x d : inv st -> step_ok st (OAppend x d).
 Proof.
-  intros I.
-  destruct (Nat.ltb_spec x (length (shnd st))) as [Hx|Hx].
-  2:{ apply guard_ok; [exact I| |].
-      - unfold step. cbn [target]. rewrite (proj2 (Nat.ltb_ge _ _) Hx). reflexivity.
-      - intros h. unfold sstep. cbn [target]. rewrite abs_length, (proj2 (Nat.ltb_ge _ _) Hx). reflexivity. }
-  destruct (hsl (hnd st x)) eqn:Hs.
-  { apply guard_ok; [exact I| |].
-    - unfold step. cbn [target is_slice_op]. rewrite (proj2 (Nat.ltb_lt _ _) Hx), Hs. reflexivity.
-    - intros h. unfold sstep. cbn [target is_slice_op]. rewrite abs_length, (proj2 (Nat.ltb_lt _ _) Hx), nth_abs.
-      unfold absh. rewrite Hs. reflexivity. }
-  eapply (arr_step st (OAppend x d) false _ (fun h => s_append h (aval (sheap st) (hbuf (hnd st x))) d)); auto.
-  - unfold step. cbn [target is_slice_op]. rewrite (proj2 (Nat.ltb_lt _ _) Hx), Hs. reflexivity.
-  - intros h. unfold sstep. cbn [target is_slice_op]. rewrite abs_length, (proj2 (Nat.ltb_lt _ _) Hx), nth_abs.
-    rewrite (absh_arr _ _ Hs). reflexivity.
-  - intros cnt acc. cbn [target]. apply array_append_sem. apply inv_aok. exact I.
+  intros I. arr_guards I st x Hx Hs.
+  eapply (arr_step st (OAppend x d) false _ (fun h => s_append h (aval (sheap st) (hbuf (hnd st x))) d));
+    auto; [arr_eq_step Hx Hs | arr_eq_spec Hx Hs | ].
+  intros cnt acc. apply array_append_sem, inv_aok, I.
+Qed.
+
+Lemma step_insert st x pos d : inv st -> step_ok st (OInsert x pos d).
+Proof.
+  intros I. arr_guards I st x Hx Hs.
+  eapply (arr_step st (OInsert x pos d) false _ (fun h => s_insert h (aval (sheap st) (hbuf (hnd st x))) pos d));
+    auto; [arr_eq_step Hx Hs | arr_eq_spec Hx Hs | ].
+  intros cnt acc. apply array_insert_sem, inv_aok, I.
+Qed.
+
+Lemma step_set st x tr neg off d : inv st -> step_ok st (OSet x tr neg off d).
+Proof.
+  intros I. arr_guards I st x Hx Hs.
+  eapply (arr_step st (OSet x tr neg off d) false _
+            (fun h => s_set h (aval (sheap st) (hbuf (hnd st x))) tr neg off d));
+    auto; [arr_eq_step Hx Hs | arr_eq_spec Hx Hs | ].
+  intros cnt acc. apply array_set_sem, inv_aok, I.
+Qed.
+
+Lemma step_slice st x off d w : inv st -> step_ok st (OSlice x off d w).
+Proof.
+  intros I. arr_guards I st x Hx Hs.
+  eapply (arr_step st (OSlice x off d w) false (oslice (sheap st) (hbuf (hnd st x)) off d w)
+            (fun h => s_slice h (aval (sheap st) (hbuf (hnd st x))) off d w));
+    auto; [arr_eq_step Hx Hs | arr_eq_spec Hx Hs | ].
+  intros cnt acc. apply oslice_sem, inv_aok, I.
+Qed.
+
+Lemma step_reduce st x : inv st -> step_ok st (OReduce x).
+Proof.
+  intros I. arr_guards I st x Hx Hs.
+  eapply (arr_step st (OReduce x) false _ (fun h => D (aval (sheap st) (hbuf (hnd st x)))));
+    auto; [arr_eq_step Hx Hs | arr_eq_spec Hx Hs | ].
+  intros cnt acc. apply array_reduce_sem, inv_aok, I.
 Qed.
